@@ -96,6 +96,14 @@ class FaultSchedule(Entity):
                 len(fault_events),
             )
 
+        # A fault boundary takes effect before every other event of its instant,
+        # whichever was created first: a delivery due exactly at a restart time
+        # reaches the restarted entity, one due exactly at the crash time is
+        # dropped. Ties are broken by sort index, so the fault events get the
+        # smallest ones (their own relative order is kept).
+        for offset, event in enumerate(all_events):
+            event._sort_index = offset - len(all_events)
+
         logger.info(
             "[%s] Started with %d fault(s), %d total event(s)",
             self.name,
